@@ -44,6 +44,7 @@ type Knobs struct {
 	PDebugLog  float64
 	PTies      float64 // creation-time ties / zero timestamps
 	POddNode   float64 // per scan: add an oddly shaped node / pod (C20)
+	PMidScan   float64 // per scan: a node changes between the cache snapshot and escalator's fetch-latest
 	PExternal  float64 // per history: a node of the group that is not a member of the cloud group
 	POps       float64 // probability of each additional world op before a scan
 	Ops        map[string]int
@@ -576,6 +577,13 @@ func (run *Run) applyOp(gi int, op string) {
 			}
 			run.tracef("  op g%d asg-bounds min=%d max=%d", gi, g.Min, g.Max)
 		}
+	case "fleet-script":
+		// how the cloud answers the next fleet requests
+		env.AWS.Fleet.Groups = pick(r, 1, 1, 2, 3)
+		env.AWS.Fleet.ReadyAfter = pick(r, time.Duration(0), time.Duration(0), time.Second, 3*time.Second, -1)
+		env.AWS.Fleet.WithErrors = r.Intn(4) == 0
+		env.AWS.Fleet.FailMessage = pick(r, "", "", "", "There is no Spot capacity available that matches your request.")
+		run.tracef("  op g%d fleet-script %+v", gi, env.AWS.Fleet)
 	case "label-drift":
 		// a node loses / regains the group label
 		if n := anyNode(); n != "" && r.Intn(2) == 0 {
@@ -643,6 +651,39 @@ func (run *Run) Step(s int) *monitor.ScanCtx {
 		opts.StaleView = true
 	}
 	run.nextStale = false
+	rMid := m.Float64()
+	midPick, midKind := m.Intn(1<<30), m.Intn(4)
+	if rMid < k.PMidScan && !opts.StaleView {
+		// something else changes a node between the cache snapshot and escalator's fetch-latest
+		var all []string
+		for gi := range env.Groups {
+			all = append(all, env.GroupNodeNames(gi)...)
+		}
+		if len(all) > 0 {
+			victim := all[midPick%len(all)]
+			done := false
+			opts.BeforeGet = func(name string) {
+				if done || name != victim {
+					return
+				}
+				done = true
+				switch midKind {
+				case 0:
+					env.SetCordon(victim, true)
+				case 1:
+					env.SetTaint(victim, sim.EscalatorTaint, fmt.Sprint(time.Now().Unix()-5), v1.TaintEffectNoSchedule)
+				case 2:
+					env.K.MutateNode(victim, func(x *v1.Node) {
+						x.Spec.Taints = append(x.Spec.Taints, v1.Taint{Key: "node.kubernetes.io/unreachable", Effect: v1.TaintEffectNoExecute})
+					})
+				case 3:
+					env.RemoveTaint(victim, sim.EscalatorTaint)
+				}
+				run.tracef("  mid-scan: %s changed (kind %d) between snapshot and GET", victim, midKind)
+			}
+			opts.MidScan = true
+		}
+	}
 	rec := env.RunScan(opts)
 	sc := run.H.Observe(rec)
 	if run.Trace != nil {
